@@ -310,7 +310,7 @@ def run_c09(ck, fb, fbd):
     cm = c.cm
     ck.rule("C09.trigger", "reorder_incident_halffaces(e) is called for the affected edges in add_cell, delete_face_core (after the unlink), delete_cell_core (after the incident-cell reset) and in enable_edge/face_bottom_up_incidences - in every deletion mode (no deferred/fast condition), exactly when both the edge and the face kind are available")
     ck.rule("C09.walk", "inside reorder_incident_halffaces the forward walk appends and steps with adjacent_halfface_in_cell + opposite_halfface_handle along the halfedge, the backward walk uses the opposite halfedge and prepends (front insertion / reverse range), both walks abort when they outgrow the stored list, and the ordered list is written back together with its mirrored reverse for the opposite halfedge")
-    ck.rule("C09.adjacent", "adjacent_halfface_in_cell accepts another halfface of the cell only if it contains the opposite of the given halfedge, is not the given halfface and is not its opposite halfface (cells containing both sides of a face)")
+    ck.rule("C09.adjacent", "adjacent_halfface_in_cell accepts another halfface of the cell only if it contains the opposite of the given halfedge, is not the given halfface and is not its opposite halfface; the opposite halfface - a cell may contain both sides of a face - is remembered and is the answer only when the cell has no other halfface at the edge")
     ro = [f for f in c.fns if f.name == "reorder_incident_halffaces"]
     if not ro:
         raise AnalysisBroken("anchor vanished: TopologyKernel::reorder_incident_halffaces")
@@ -384,7 +384,33 @@ def run_c09(ck, fb, fbd):
             cand.append((b, x))
     if len(cand) < 2:
         raise AnalysisBroken("C09: adjacent_halfface_in_cell: candidate sites (result = a halfface of the cell of the given halfface) not recognised (%d)" % len(cand))
+    OPPF = ceq(CAND, "opposite_halfface_handle(P0)", "!=")
+    OPPF_EQ = ceq(CAND, "opposite_halfface_handle(P0)", "==")
+    fallback = [(b, x) for b, x in cand if (OPPF, False) in {(s_, p_) for s_, p_, c_ in acn.facts(b)} or (OPPF_EQ, True) in {(s_, p_) for s_, p_, c_ in acn.facts(b)}]
+    primary_vars = {acn.s(as_assign(x)[0]) for b, x in cand if (b, x) not in fallback and as_assign(x)}
+    # the opposite halfface (a cell may contain both sides of a face) is the answer of last resort: remembered, never returned
+    # on the spot, and handed out only when no other halfface of the cell lies at the edge (F48)
+    fb_ok = bool(fallback)
+    why_fb = "no fallback to the opposite halfface"
+    for b, x in fallback:
+        at = {(s_, p_) for s_, p_, c_ in acn.facts(b)}
+        a_ = as_assign(x)
+        if not a_ or (ceq("opposite_halfedge_handle(%s)" % HEc, "P1"), True) not in at or (ceq(CAND, "P0"), False) not in at:
+            fb_ok = False
+            why_fb = "the opposite halfface is returned on the spot or without the opposite-halfedge fact"
+            continue
+        F = acn.s(a_[0])
+        rets = [(bb, y) for bb, ii, y in ad.tops() if y.get("k") == "ret" and acn.s(y.get("x")) == F and bb in ad.reach()]
+        good = bool(rets) and all(any((("%s.is_valid()" % pv), False) in {(s_, p_) for s_, p_, c_ in acn.facts(bb)} for pv in primary_vars) for bb, y in rets)
+        if not good:
+            fb_ok = False
+            why_fb = "the remembered opposite halfface is returned although another candidate may exist"
+        else:
+            why_fb = "remembered in %s, returned only when %s is invalid" % (F, sorted(primary_vars))
+    (ck.ok if fb_ok else lambda r, w, t: ck.violate(r, w, t, "C09.adjacent:fallback"))("C09.adjacent", ad.where, "a cell made of both sides of a face: the opposite halfface is the answer exactly when the cell has no other halfface at the edge (%s)" % why_fb)
     for b, x in cand:
+        if (b, x) in fallback:
+            continue
         at = {(s_, p_) for s_, p_, c_ in acn.facts(b)}
         need = [(ceq("opposite_halfedge_handle(%s)" % HEc, "P1"), True), (ceq(CAND, "opposite_halfface_handle(P0)", "!="), True), (ceq(CAND, "P0"), False)]
         ok = all(nd in at for nd in need)
